@@ -103,18 +103,20 @@ void HttpServer::serve(Socket client)
 				if (!response.hasHeader("Cache-Control"))
 					response.setHeader("Cache-Control", "max-age=60, public");
 				
+				Array<String> parts;
 				if (request.hasHeader("Range"))
 				{
 					String range = request.header("Range");
 					if (range.startsWith("bytes=") && !range.contains(',')) // no multiple ranges
-					{
-						Array<String> parts = range.substr(6).split('-');
-						int begin = parts[0];
-						int end = parts[1];
-						response.setCode(206);
-						response.setHeader("Content-Range", "+");
-						response.putFile(file.path(), begin, end);
-					}
+						parts = range.substr(6).split('-');
+				}
+				if (parts.length() == 2)
+				{
+					int begin = parts[0];
+					int end = parts[1];
+					response.setCode(206);
+					response.setHeader("Content-Range", "+");
+					response.putFile(file.path(), begin, end);
 				}
 				else
 					response.putFile(file.path());
